@@ -118,6 +118,14 @@ CHECKS = {
         'input refused. Model tied to pipeline.py by batches at / just below / just above threshold, constant and callable thresholds, plain and annotated.',
    ref='DESIGN.md section 6 C17', note=COMMON_NOTE + ' Sample values are integer-valued so comparisons are exact.',
    technique='Coq proof (list filtering lemmas over the C11 index model) + vm_compute correspondence against pipeline.py'),
+ 'C02': dict(
+   text='Theorems for every queue class, stimulus set and EVERY sequence of buffer requests (no pause): the concatenated output is the rendering of the added notifications '
+        '(each stimulus from its notified start for its full length, zero elsewhere), the clock equals the samples emitted, consecutive trials are separated by exactly the earlier '
+        'one\'s delay; one request for a+b samples equals a then b (output, added notifications, clock, flags, remaining trials) from any reachable state; the request loop '
+        'terminates without raising for the deterministic policies. Model tied to queue.py by all compositions of small totals, boundary-aligned requests and random, '
+        'array and generator sources, non-integer rates, on- and off-grid start offsets (t0 compared bit-exactly with start offset + k/fs).',
+   ref='DESIGN.md section 6 C02', note=COMMON_NOTE + ' Scalar (cycled) delays in the theorems; per-trial delay lists by correspondence only; every trial occupies >= 1 sample for the termination theorem; insert() and 2-D sources outside.',
+   technique='Coq proof (ghost-state invariant + fuel-free big-step semantics of the request loop) + vm_compute model outputs compared against queue.py'),
 }
 
 PENDING = 'not yet built in this round (framework is being extended property by property; see DESIGN.md section 8)'
